@@ -33,7 +33,9 @@ CONFIG = {
              "policies (CLI option or INI [defaults]) x C05 policy mixes.  A template core (13 left x 13 right "
              "templates x value pairs x 4 policies, overlapping and disjoint keys) is enumerated, random documents "
              "beyond; malformed stream: a name defined twice in one document, an anchor policy text that is no "
-             "policy, documents without anchors.  non-trivial = both documents define an anchor of one name; "
+             "policy, documents without anchors; an implementation-only stream of 9 x 9 documents with anchored and "
+             "aliased CONTAINERS on both sides (incl. two loads of one document) x 4 policies x 3 mixes, run under a "
+             "10 s deadline: must return, end in a document or MergeException, serialize and reload.  non-trivial = both documents define an anchor of one name; "
              "distinct = distinct case tuple."),
     "trusted_base": [
         "modelled, not verified: yamlpath/common/anchors.py (scan_for_anchors, rename_anchor, replace_anchor), "
@@ -104,7 +106,24 @@ def prepare_case(case):
     return ["(resolve %s %s %s)" % (c_s, l_s, r_s), "(anchors %s %s %s %s)" % (c_s, lt, l_s, r_s)]
 
 
+TRIVIAL = "(node-eq (L i1 none false none none) (L i1 none false none none))"
+
+
+def has_anchored_container(doc):
+    return any((isinstance(n, (dict, list, tuple)) or docenc.is_set(n)) and anchor_of(n) is not None
+               for n in walk_nodes(doc, []))
+
+
+def impl_only(case):
+    """anchored / aliased CONTAINERS: one object at several places is outside the tree model
+    (Merge.v's assumption); such cases are run on the implementation only -- termination,
+    no crash, one object per anchor name, dump and reload"""
+    return has_anchored_container(load(case[0])) or has_anchored_container(load(case[1]))
+
+
 def requests(case):
+    if impl_only(case):
+        return [TRIVIAL, TRIVIAL]
     return prepare_case(case)
 
 
@@ -127,6 +146,8 @@ def real_merge(case):
 
 
 def observe(case):
+    if impl_only(case):
+        return ["true", "true"]
     out = []
     try:
         l2, r2 = real_resolve(case)
@@ -138,7 +159,7 @@ def observe(case):
         out.append(exc_line(e))
     try:
         m, lhs, rhs = real_merge(case)
-        m.merge_with(rhs)
+        c05.with_deadline(lambda: m.merge_with(rhs))
         out.append("(ok %s)" % AnEncoder().node(m.data))
     except Exception as e:  # noqa
         out.append(exc_line(e))
@@ -264,9 +285,55 @@ def yaml_anchor_faults(text):
     return faults
 
 
+def dump_reload_fault(m, merged_plain):
+    editor = _ENV["Parsers"].get_yaml_editor()
+    try:
+        m.prepare_for_dump(editor, "out.yaml")
+        buf = io.StringIO()
+        with warnings.catch_warnings():
+            warnings.simplefilter("ignore")
+            editor.dump(m.data, buf)
+    except Exception as e:  # noqa
+        return "the merged document does not serialize: %s" % type(e).__name__
+    text = buf.getvalue()
+    faults = yaml_anchor_faults(text)
+    if faults:
+        return "the serialized result has a broken anchor: %s" % faults[0]
+    with warnings.catch_warnings():
+        warnings.simplefilter("ignore")
+        back, ok = _ENV["Parsers"].get_yaml_data(_ENV["Parsers"].get_yaml_editor(), c05._ENV["log"], text, literal=True)
+    if not ok:
+        return "the serialized result does not reload"
+    if dplain(back) != merged_plain:
+        return "reloading the serialized result yields other data: %r instead of %r" % (dplain(back), merged_plain)
+    return None
+
+
+def judge_impl_only(case):
+    """anchored containers: the merge must return (no endless loop), end in a document or a
+    MergeException, and an accepted result must serialize without duplicate / undefined anchor
+    and reload to the same data"""
+    E = c05._ENV
+    m, lhs, rhs = real_merge(case)
+    try:
+        c05.with_deadline(lambda: m.merge_with(rhs), 10)
+    except c05.Timeout:
+        return "the merge did not return within 10 s (endless loop)"
+    except E["MergeException"]:
+        return None
+    except NameError:
+        return None if c05.invalid_option_text(case6(case)) or str(eff_policy(case)).lower() not in POLICIES \
+            else "merge ended in NameError"
+    except Exception as e:  # noqa
+        return "merge ended in %s (neither a document nor a MergeException)" % type(e).__name__
+    return dump_reload_fault(m, dplain(m.data))
+
+
 def judge(case, obs):
     E = c05._ENV
     lt, rt, opts, ini = case
+    if impl_only(case):
+        return judge_impl_only(case)
     l0, r0 = load(lt), load(rt)
     ldefs, rdefs = defs_of(l0), defs_of(r0)
     if ldefs is None or rdefs is None:
@@ -348,34 +415,29 @@ def judge(case, obs):
             if n in common and n not in conflicts and v != lval[n]:
                 return "equal anchors &%s: a node reads %r" % (n, v)
     # ---- serialize and reload
-    editor = _ENV["Parsers"].get_yaml_editor()
-    try:
-        m.prepare_for_dump(editor, "out.yaml")
-        buf = io.StringIO()
-        with warnings.catch_warnings():
-            warnings.simplefilter("ignore")
-            editor.dump(m.data, buf)
-    except Exception as e:  # noqa
-        return "the merged document does not serialize: %s" % type(e).__name__
-    text = buf.getvalue()
-    faults = yaml_anchor_faults(text)
-    if faults:
-        return "the serialized result has a broken anchor: %s" % faults[0]
-    with warnings.catch_warnings():
-        warnings.simplefilter("ignore")
-        back, ok = _ENV["Parsers"].get_yaml_data(_ENV["Parsers"].get_yaml_editor(), c05._ENV["log"], text, literal=True)
-    if not ok:
-        return "the serialized result does not reload"
-    if dplain(back) != merged_plain:
-        return "reloading the serialized result yields other data: %r instead of %r" % (dplain(back), merged_plain)
-    return None
+    return dump_reload_fault(m, merged_plain)
 
 
 def aoh_default(case, obs):
     return c05.aoh_default_governs_non_aoh(case6(case), obs)
 
 
-FINDING_PREDS = {"aoh_default_governs_non_aoh": aoh_default}
+def anchored_container_as_array_element(case, obs):
+    """F-C10-1: a document holds an anchored Hash / Array that is itself an ELEMENT of an Array:
+    Anchors.scan_for_anchors recurses into the element without looking at the element's own
+    anchor, so a same-named anchor of the other document is never detected as common (neither
+    as conflict nor as equal): the result carries the name on two objects"""
+    def found(x):
+        if isinstance(x, dict):
+            return any(found(v) for v in x.values())
+        if isinstance(x, (list, tuple)):
+            return any(((isinstance(e, (dict, list)) and anchor_of(e) is not None) or found(e)) for e in x)
+        return False
+    return found(load(case[0])) or found(load(case[1]))
+
+
+FINDING_PREDS = {"aoh_default_governs_non_aoh": aoh_default,
+                 "anchored_container_as_array_element": anchored_container_as_array_element}
 
 
 # ---------------------------------------------------------------- generators
@@ -553,7 +615,31 @@ def loads(text):
         return False
 
 
+CONTAINER_DOCS = [
+    "{base: &b {x: 1 , y: 2 }, use: *b , list: &l [1 , 2 ], again: *l , name: &n val , ref: *n }",
+    "{list: &l [1 , 2 ], again: *l }",
+    "{list: &l [1 , 3 ], again: *l }",
+    "{base: &b {x: 1 }, use: *b }",
+    "{base: &b {x: 2 , z: 3 }, use: [*b ]}",
+    "[&l [1 , 2 ], *l ]",
+    "[&l [{id: 1 }], *l ]",
+    "{k: &l [1 , 2 ]}",
+    "{k: &m {a: &x 1 , b: *x }, j: *m }",
+]
+
+
+def container_cases():
+    for l in CONTAINER_DOCS:
+        for r in CONTAINER_DOCS:
+            for p in POLICIES:
+                for o in (dict(), dict(arrays="unique"), dict(aoh="deep", hashes="deep")):
+                    o = dict(o)
+                    o["anchors"] = p
+                    yield (l, r, o, None)
+
+
 def corpus_chunks():
+    yield list(container_cases())
     yield [
         ("{a: &x 1 , b: *x }", "{c: &x 2 , d: *x }", {"anchors": "stop"}, None),
         ("{a: &x 1 , b: *x }", "{c: &x 2 , d: *x }", {"anchors": "left"}, None),
@@ -586,6 +672,8 @@ def classify(case, obs):
         rel = "conflict" if conf else "equal" if common else "disjoint" if (ld and rd) else "one-sided" if (ld or rd) \
             else "no-anchors"
     o = obs[1]
+    if o == "true":
+        return "impl-only:anchored-container"
     res = "ok" if o.startswith("(ok") else "mergeexc" if o == "(raise mergeexc)" else "other"
     return "%s:%s:%s" % (str(eff_policy(case)).lower() if str(eff_policy(case)).lower() in POLICIES else "badtext",
                          rel, res)
